@@ -1,4 +1,292 @@
 package main
 
-func regSM() {}
-func famSM() {}
+// Pack types that have their own Write/Read but are not in pack.CreatePack (the
+// server-monitoring packs and the transaction-statistics records): decoded through their own
+// Read after the type short. Reference encodings written from the layout, as in refpacks.go.
+
+import (
+	gio "github.com/whatap/golib/io"
+	"github.com/whatap/golib/lang/pack"
+
+	"verif/refcodec"
+	"verif/valgen"
+	"verif/vlib"
+)
+
+func regSM() {
+	own := func(name string, mk func() pack.Pack, deep func(p pack.Pack)) {
+		strict := func(in *gio.DataInputX) {
+			in.ReadShort()
+			mk().Read(in)
+		}
+		var dp func(in *gio.DataInputX)
+		if deep != nil {
+			dp = func(in *gio.DataInputX) {
+				in.ReadShort()
+				p := mk()
+				p.Read(in)
+				deep(p)
+			}
+		}
+		reg("Read/"+name, strict, dp)
+	}
+	own("SMBasePack", func() pack.Pack { return pack.NewSMBasePack() }, nil)
+	own("SMDiskPerfPack", func() pack.Pack { return pack.NewSMDiskPerfPack() }, nil)
+	own("SMNetPerfPack", func() pack.Pack { return pack.NewSMNetPerfPack() }, nil)
+	own("SMProcPerfPack", func() pack.Pack { return pack.NewSMProcPerfPack() }, nil)
+	own("SMTCPPerfPack", func() pack.Pack { return pack.NewSMTCPPerfPack() }, nil)
+	own("SMLogEventPack", func() pack.Pack { return pack.NewSMLogEventPack() }, nil)
+	own("SMDownCheckPack", func() pack.Pack { return pack.NewSMDownCheckPack() }, func(p pack.Pack) { p.(*pack.SMDownCheckPack).GetRecords() })
+	own("SMPingPack", func() pack.Pack { return pack.NewSMPingPack() }, nil)
+	own("SMExtension", func() pack.Pack { return pack.NewSMExtensionPack() }, nil)
+	own("StatTransactionPack1", func() pack.Pack { return pack.NewStatTransactionPack1() }, func(p pack.Pack) { p.(*pack.StatTransactionPack1).GetRecords() })
+}
+
+func floats(o *W, r *vlib.Rand, n int) {
+	for i := 0; i < n; i++ {
+		o.F32(r.F32())
+	}
+}
+
+func decs(o *W, r *vlib.Rand, n int) {
+	for i := 0; i < n; i++ {
+		o.Decimal(r.I64())
+	}
+}
+
+func encSMBasePack(r *vlib.Rand) *W {
+	w := refcodec.NewW()
+	packType(w, 0x3008)
+	o := refcodec.NewW()
+	packHeader(o, r)
+	o.I32(r.I32())
+	linux := r.Bool()
+	cpu := func() {
+		c := refcodec.NewW()
+		if linux {
+			floats(c, r, 11)
+		} else {
+			floats(c, r, 4)
+		}
+		blobOf(o, c)
+	}
+	if linux {
+		o.I16([]int16{1, 3, 4, 5}[r.Intn(4)])
+	} else {
+		o.I16(2)
+	}
+	cpu()
+	n := smallN(r, 6)
+	byteCount(o, n, "smbase-core-count")
+	for i := 0; i < n; i++ {
+		cpu()
+	}
+	m := refcodec.NewW()
+	if linux {
+		decs(m, r, 4)
+		floats(m, r, 1)
+		decs(m, r, 1)
+		floats(m, r, 1)
+		decs(m, r, 3)
+		floats(m, r, 1)
+		decs(m, r, 1)
+		floats(m, r, 1)
+		decs(m, r, 3)
+	} else {
+		decs(m, r, 4)
+		floats(m, r, 1)
+		decs(m, r, 1)
+		floats(m, r, 2)
+		decs(m, r, 1)
+		floats(m, r, 1)
+		decs(m, r, 3)
+	}
+	blobOf(o, m)
+	o.Decimal(r.I64()).I64(r.I64())
+	switch r.Intn(3) {
+	case 0: // the older form ends here
+	case 1:
+		o.Mark(0, kEnd, "smbase-without-extra")
+		o.Mark(1, kTag, "smbase-extra-present")
+		o.U8(0)
+	default:
+		o.Mark(0, kEnd, "smbase-without-extra")
+		o.Mark(1, kTag, "smbase-extra-present")
+		o.U8(1)
+		o.Value(mapValue(r, 1, 4))
+	}
+	blobOf(w, o)
+	return w
+}
+
+// listPack: type, header, [int16 os], decimal count, count × blob{element}
+func listPack(r *vlib.Rand, code int16, withOS bool, name string, max int, elem func(o *W, r *vlib.Rand)) *W {
+	w := refcodec.NewW()
+	packType(w, code)
+	packHeader(w, r)
+	if withOS {
+		w.I16(int16(1 + r.Intn(8)))
+	}
+	n := smallN(r, max)
+	decCount(w, n, name)
+	for i := 0; i < n; i++ {
+		o := refcodec.NewW()
+		elem(o, r)
+		blobOf(w, o)
+	}
+	return w
+}
+
+func encSMDiskPerfPack(r *vlib.Rand) *W {
+	return listPack(r, 0x3001, true, "smdisk-count", 5, func(o *W, r *vlib.Rand) {
+		o.I32(r.I32()).I32(r.I32()).I32(r.I32())
+		decs(o, r, 3)
+		floats(o, r, 2)
+		o.I32(r.I32()).F64(r.F64()).F64(r.F64()).F64(r.F64()).F64(r.F64())
+		floats(o, r, 1)
+		o.I32(r.I32())
+		floats(o, r, 1)
+		decs(o, r, 2)
+		floats(o, r, 1)
+		o.I32(r.I32())
+	})
+}
+
+func encSMNetPerfPack(r *vlib.Rand) *W {
+	return listPack(r, 0x3002, true, "smnet-count", 5, func(o *W, r *vlib.Rand) {
+		o.I32(r.I32()).Blob(r.Blob(20)).Text(shortStr(r))
+		for i := 0; i < 8; i++ {
+			o.F64(r.F64())
+		}
+		o.I32(r.I32())
+	})
+}
+
+func encSMProcPerfPack(r *vlib.Rand) *W {
+	return listPack(r, 0x3003, true, "smproc-count", 4, func(o *W, r *vlib.Rand) {
+		o.I32(r.I32()).I32(r.I32())
+		floats(o, r, 1)
+		decs(o, r, 1)
+		floats(o, r, 3)
+		o.I32(r.I32()).I32(r.I32())
+		floats(o, r, 2)
+		o.I32(r.I32()).I32(r.I32()).I64(r.I64())
+		decs(o, r, 1)
+		n := smallN(r, 3)
+		decCount(o, n, "smproc-net-count")
+		for i := 0; i < n; i++ {
+			e := refcodec.NewW()
+			e.I32(r.I32()).I16(r.I16()).I32(r.I32())
+			blobOf(o, e)
+		}
+		n = smallN(r, 3)
+		decCount(o, n, "smproc-file-count")
+		for i := 0; i < n; i++ {
+			e := refcodec.NewW()
+			e.I32(r.I32()).I64(r.I64())
+			blobOf(o, e)
+		}
+		decs(o, r, 2)
+	})
+}
+
+func encSMTCPPerfPack(r *vlib.Rand) *W {
+	return listPack(r, 0x3004, false, "smtcp-count", 8, func(o *W, r *vlib.Rand) {
+		o.I32(r.I32()).Bool(r.Bool())
+	})
+}
+
+func encSMLogEventPack(r *vlib.Rand) *W {
+	return listPack(r, 0x3005, false, "smlogevent-count", 4, func(o *W, r *vlib.Rand) {
+		o.U8(byte(1 + r.Intn(3))).U8(byte(r.U64()))
+		o.Text(shortStr(r)).Text(r.Str(300)).Text(shortStr(r))
+		o.I32(r.I32()).Text(shortStr(r)).I32(r.I32()).I64(r.I64())
+		o.Text(shortStr(r)).Text(shortStr(r))
+	})
+}
+
+func encSMDownCheckPack(r *vlib.Rand) *W {
+	w := refcodec.NewW()
+	packType(w, 0x3006)
+	packHeader(w, r)
+	version(w, byte(r.Intn(2)), "smdowncheck-version")
+	o := refcodec.NewW()
+	n := smallN(r, 6)
+	shortCount(o, n, "smdowncheck-records-count")
+	for i := 0; i < n; i++ {
+		o.Text(shortStr(r)).Text(shortStr(r)).I32(r.I32()).Bool(r.Bool())
+	}
+	blobOf(w, o)
+	w.Decimal(int64(n))
+	return w
+}
+
+func encSMPingPack(r *vlib.Rand) *W {
+	w := refcodec.NewW()
+	packType(w, 0x3012)
+	o := refcodec.NewW()
+	packHeader(o, r)
+	o.I32(r.I32()).I16(r.I16()).I16(r.I16())
+	blobOf(w, o)
+	return w
+}
+
+// SMExtension as its reader takes it: header, version byte, bool, int-map body, one byte,
+// int-map body, int-map body.
+func encSMExtension(r *vlib.Rand) *W {
+	w := refcodec.NewW()
+	packType(w, 0x1600)
+	packHeader(w, r)
+	version(w, 1, "smextension-version")
+	w.Bool(r.Bool())
+	w.ValueBody(valgen.GenTag(r, refcodec.TIntMap, 1, 4))
+	w.Mark(1, kTag, "value-tag")
+	w.U8(refcodec.TIntMap)
+	w.ValueBody(valgen.GenTag(r, refcodec.TIntMap, 1, 4))
+	w.ValueBody(valgen.GenTag(r, refcodec.TIntMap, 1, 4))
+	return w
+}
+
+func encStatTransactionPack1(r *vlib.Rand) *W {
+	w := refcodec.NewW()
+	packType(w, 0x0901)
+	packHeader(w, r)
+	o := refcodec.NewW()
+	n := smallN(r, 4)
+	shortCount(o, n, "stattx-records-count")
+	for i := 0; i < n; i++ {
+		o.I32(r.I32())
+		ver := byte(2 + r.Intn(3))
+		version(o, ver, "transactionrec-version")
+		decs(o, r, 12)
+		timeCountMap(o, r, "transactionrec-sqlmap-count")
+		timeCountMap(o, r, "transactionrec-httpcmap-count")
+		if ver > 2 {
+			decs(o, r, 2)
+		}
+		if ver > 3 {
+			decs(o, r, 2)
+		}
+	}
+	blobOf(w, o)
+	w.Decimal(int64(n))
+	version(w, 0, "stattx-version")
+	w.Decimal(int64(r.I32()))
+	return w
+}
+
+func famSM() {
+	pk := func(name string, g func(r *vlib.Rand) *W) {
+		fam("pack/"+name, func(r *vlib.Rand) *enc { return fromW("Read/"+name, g(r)) })
+	}
+	pk("SMBasePack", encSMBasePack)
+	pk("SMDiskPerfPack", encSMDiskPerfPack)
+	pk("SMNetPerfPack", encSMNetPerfPack)
+	pk("SMProcPerfPack", encSMProcPerfPack)
+	pk("SMTCPPerfPack", encSMTCPPerfPack)
+	pk("SMLogEventPack", encSMLogEventPack)
+	pk("SMDownCheckPack", encSMDownCheckPack)
+	pk("SMPingPack", encSMPingPack)
+	pk("SMExtension", encSMExtension)
+	pk("StatTransactionPack1", encStatTransactionPack1)
+}
